@@ -341,7 +341,7 @@ impl Engine for LexSim {
     fn runs(&self, tier: Tier) -> u64 {
         match tier {
             Tier::Quick => 2_000_000,
-            Tier::Thorough => 24_000_000,
+            Tier::Thorough => 100_000_000,
         }
     }
 
